@@ -13,6 +13,8 @@ is compared, and only differences that change what the matched expression comput
       complement (the complement appears when a test is inverted and its branches exchanged)    n < k -> n <= k,  a != b -> a > b
   D5  a constant index into the same object changed                                      stack[-1] -> stack[0]
   D6  the operands of the same non-commutative operator are exchanged                    a - b -> b - a
+  D7  one positional argument that is a parameter of the enclosing function is no longer passed, the other
+      arguments unchanged and in order                                                    merge(state, *states) -> merge(*states)
 
 A function that was renamed, split or rewritten produces no unique matches and nothing is reported for it (the
 specific rules decide, or nobody does).  A compensated edit (both the flag and its meaning inverted) would be
@@ -76,6 +78,12 @@ def atoms(fn):
       kws = {k.arg: astu.src(k.value) for k in n.keywords if k.arg is not None}
       kinds = {k.arg: ('const' if isinstance(k.value, ast.Constant) else 'expr') for k in n.keywords if k.arg is not None}
       splat = any(k.arg is None for k in n.keywords) or any(isinstance(a, ast.Starred) for a in n.args)
+      own_kw = fn.args.kwarg.arg if getattr(fn, 'args', None) is not None and fn.args.kwarg is not None else None
+      own_va = fn.args.vararg.arg if getattr(fn, 'args', None) is not None and fn.args.vararg is not None else None
+      # `*args, **kwargs` of the enclosing function itself cannot carry one of its *named* parameters
+      if splat and all(k.arg is not None or (isinstance(k.value, ast.Name) and k.value.id == own_kw) for k in n.keywords) and \
+          all(not isinstance(a, ast.Starred) or (isinstance(a.value, ast.Name) and a.value.id == own_va) for a in n.args):
+        splat = 'own'
       entry = [pos, kws, kinds, splat, getattr(n, 'lineno', 0)]
       calls.setdefault(callee, []).append(entry)
       if len(pos) >= 2 and not splat:
@@ -140,11 +148,25 @@ def compare(R, f, ref, now):
     if not rsplat and not nsplat and len(rpos) >= 2 and sorted(rpos) == sorted(npos) and rpos != npos and len(set(rpos)) == len(rpos) and _tail(callee) not in COMMUTATIVE_CALLEES:
       R.fail(key_of(f, 'arguments of %s(...) keep their order' % callee), (f, line),
              '`%s(%s)`: the same arguments are passed in another order than on the reference tree (`%s(%s)`)' % (callee, ', '.join(npos), callee, ', '.join(rpos)))
+    if len(npos) == len(rpos) - 1 and ' @@ ' not in ckey and not any(v_ in rpos for v_ in nkw.values() if v_ not in rkw.values()):
+      # D7: exactly one positional argument is gone, the others unchanged and in order, and it did not become a keyword
+      gone = [i for i in range(len(rpos)) if rpos[:i] + rpos[i + 1:] == npos]
+      if len(gone) >= 1 and set(nkw) == set(rkw) and rpos[gone[0]] in ref.get('params', ()) and rpos[gone[0]] in now.get('params', ()) and _tail(callee) not in ('zip', 'get', 'getattr', 'print', 'format', 'join', 'isinstance'):
+        R.fail(key_of(f, '%s(...) still receives `%s`' % (callee, rpos[gone[0]])), (f, line),
+               '`%s(%s)` no longer passes `%s` (reference tree: `%s(%s)`): that value silently drops out of the computation' % (callee, ', '.join(npos), rpos[gone[0]], callee, ', '.join(rpos)))
     for k, v in rkw.items():
       if k in nkw:
         if rkind.get(k) == 'const' and nkind.get(k) == 'const' and {v, nkw[k]} == {'True', 'False'}:
           R.fail(key_of(f, '%s(..., %s=%s)' % (callee, k, v)), (f, line), '`%s(..., %s=%s)`: the flag is %s on the reference tree' % (callee, k, nkw[k], v))
-      elif rkind.get(k) == 'expr' and not nsplat and not rsplat and len(npos) <= len(rpos):
+      elif rkind.get(k) == 'expr' and len(npos) > len(rpos) and not nsplat and not rsplat:
+        # some keywords were turned into positional arguments: those are accounted for by their text; a keyword whose value appears
+        # nowhere among the new positionals, when every new positional is accounted for, is really gone
+        extra = npos[len(rpos):]
+        moved = [k2 for k2, v2 in rkw.items() if k2 not in nkw and v2 in extra]
+        if len(moved) == len(extra) and k not in moved and v not in npos:
+          R.fail(key_of(f, '%s(..., %s=%s) still passed' % (callee, k, v)), (f, line),
+                 '`%s(...)` was rewritten with positional arguments (%s) and no longer receives `%s=%s`: the callee silently falls back to its default for that option' % (callee, ', '.join(extra), k, v))
+      elif rkind.get(k) == 'expr' and len(npos) <= len(rpos) and ((not nsplat and not rsplat) or (nsplat in (False, 'own') and rsplat in (False, 'own') and v == k and k in ref.get('params', ()) and k in now.get('params', ()))):
         fwd = v in ref.get('params', ()) or v.split('.')[0] in ref.get('params', ())
         R.fail(key_of(f, '%s(..., %s=%s) still passed' % (callee, k, v)), (f, line),
                '`%s(...)` no longer receives `%s=%s`%s: the callee silently falls back to its default for that option' % (callee, k, v, ' (a parameter of %s that callers can set)' % q if fwd else ''))
